@@ -781,7 +781,13 @@ func (cg *caseGen) stores(c *pvcase.Case) {
 			for n := cg.r.IntN(3); n > 0; n-- {
 				ns = append(ns, int64(cg.r.IntN(5)))
 			}
-			o.InitState = append(o.InitState, pvcase.StoreEntry{Key: "c", Val: pvcase.ClVal(ns...)})
+			if cg.chance(0.25) {
+				// a placeholder under the key that a state block later REPLACES by a Cloner value: the store keeps its size,
+				// what has to be cloned changes (round 23: the set of Cloner keys cached until the store's size changes)
+				o.InitState = append(o.InitState, pvcase.StoreEntry{Key: "c", Val: []pvcase.Val{pvcase.IntVal(0), pvcase.NilVal()}[cg.r.IntN(2)]})
+			} else {
+				o.InitState = append(o.InitState, pvcase.StoreEntry{Key: "c", Val: pvcase.ClVal(ns...)})
+			}
 		}
 		if cg.chance(0.5) {
 			o.InitState = append(o.InitState, pvcase.StoreEntry{Key: "n", Val: pvcase.IntVal(int64(cg.r.IntN(3)))})
@@ -832,7 +838,9 @@ func (g *generator) genCase(prof string) ([]*pvcase.Case, *caseGen) {
 	// ---- options
 	if g.chance(0.3) {
 		// the name is data: nothing in it may be interpreted (format verbs, separators, quotes)
-		names := []string{"f.peg", "f.peg", "my%20file.txt", "100%.peg", "%d%s%v%!", "dir with space/ünï 世界.peg", "a:1:2 (3): rule X", "C:\\x\\y.peg", "-", "\"q\".peg"}
+		names := []string{"f.peg", "f.peg", "my%20file.txt", "100%.peg", "%d%s%v%!", "dir with space/ünï 世界.peg", "a:1:2 (3): rule X", "C:\\x\\y.peg", "-", "\"q\".peg",
+			// legal but not canonical spellings of a path: the name in the messages is the name the caller gave (round 23)
+			"./f.peg", ".//g.peg", "./././h.peg"}
 		o.Filename = names[g.r.IntN(len(names))]
 	}
 	if !fl.Optimize {
